@@ -182,7 +182,35 @@ def c08c(prog, R):
         and all("size_of" in x for x in sizes[1:6]) and so == exp_mid
     r.check(ok, "write_raw|offset additions match the field widths in order", "offset additions %s / size_of order %s" % (sizes, so), "",
             "size_of::<%s>" % ",".join(so))
-    r.floor(9)
+    # the pointer names the file and the offset the blob was written to: both are read from the active writer before it
+    # may be rotated away
+    MW = "vlog::blob_file::multi_writer::MultiWriter::"
+    skels = {}
+    for m, inner in (("write", "vlog::blob_file::writer::Writer::write"), ("write_raw", "vlog::blob_file::writer::Writer::write_raw")):
+        f = prog.need(MW + m)
+        aggs = [(i, st) for i, b in enumerate(f.blocks) for st in b["stmts"] if st["k"] == "assign" and st["rv"]["k"] == "agg"
+                and st["rv"].get("adt") == "vlog::handle::ValueHandle"]
+        rot = f.calls_to(MW + "rotate")
+        wr = f.calls_to(inner)
+        if not aggs or not rot or not wr:
+            r.anchor_missing("ValueHandle / rotate / inner write in %s%s" % (MW, m))
+            continue
+        for (bi, st) in aggs:
+            flds = dict(zip(st["rv"]["fields"], st["rv"]["ops"]))
+            o_off = [o for o in origins(f, flds["offset"]) if o.kind == "call"]
+            o_id = [o for o in origins(f, flds["blob_file_id"]) if o.kind == "call"]
+            o_sz = [o for o in origins(f, flds["on_disk_size"]) if o.kind == "call"]
+            ok_off = bool(o_off) and all(o.extra.sres.endswith("writer::Writer::offset") and f.dominates(o.extra.bb, wr[0].bb) for o in o_off)
+            ok_id = bool(o_id) and all(o.extra.sres.endswith("writer::Writer::blob_file_id") and
+                                       not any(o.extra.bb in f.reach_after(rc.bb) for rc in rot) for o in o_id)
+            ok_sz = bool(o_sz) and all(o.extra.bb == wr[0].bb for o in o_sz)
+            r.check(ok_off, "%s%s|handle.offset = writer.offset() read before the write" % (MW, m),
+                    "the pointer's offset is not the writer position before the blob was written", f.where(bi))
+            r.check(ok_id, "%s%s|handle.blob_file_id read before a possible rotation" % (MW, m),
+                    "the pointer's blob file id is read after the writer may have been rotated: the pointer names the next file "
+                    "with an offset of the previous one", f.where(bi))
+            r.check(ok_sz, "%s%s|handle.on_disk_size = result of the write" % (MW, m), "on_disk_size does not come from the write", f.where(bi))
+    r.floor(15)
 
 
 def c08d(prog, R):
@@ -264,7 +292,50 @@ def c08e(prog, R):
             "the relocated blob files are not installed by the version that re-points the tables", f.where())
     r.check(hit_drop and "blob_files_to_drop" in lets, "%s|with_merge(blob_files_to_drop) starts from the rewritten files" % f.path,
             "the rewritten blob files are not removed by the version that re-points the tables", f.where(), str(lets.get("blob_files_to_drop")))
-    r.floor(2)
+    with_merge_guards(prog, r)
+    r.floor(6)
+
+
+def with_merge_guards(prog, r):
+    """In Version::with_merge every loop over an input collection sits under a guard that is true whenever that
+    collection is non-empty (the copy-on-write fast path must not swallow inputs)."""
+    name = "version::Version::with_merge"
+    h = prog.hir.get(name)
+    if h is None:
+        r.anchor_missing(name)
+        return
+    fors = hir_sites(h["body"], lambda n: n.get("k") == "for")
+    seen = 0
+    defs = {n["pat"]["n"]: hir_expr_str(n["init"], 300) for n in hir_walk(h["body"]) if n.get("k") == "let" and n["pat"].get("k") == "bind" and "init" in n}
+
+    def resolve(t):
+        # a guard that is a plain boolean variable stands for its definition
+        neg = t.startswith("!")
+        v = t[1:] if neg else t
+        if v in defs and not neg:
+            return "%s := %s" % (v, defs[v])
+        return t
+    for s in fors:
+        it = hir_expr_str(s.node["iter"])
+        for coll in ("new_blob_files", "blob_files_to_drop"):
+            if it in (coll, "&" + coll, coll + ".iter()"):
+                seen += 1
+                g = [resolve(t) for t in s.guard_texts() if not t.startswith("for:")]
+                ok = (not g) or any(("!%s.is_empty()" % coll) in t for t in g)
+                r.check(ok, "%s|loop over %s runs whenever it is non-empty" % (name, coll),
+                        "the loop that applies `%s` is guarded by `%s`, which can be false although the collection is non-empty: "
+                        "its blob files would silently not enter / leave the version" % (coll, " & ".join(g)), "", " & ".join(g))
+    if seen < 2:
+        r.anchor_missing("loops over new_blob_files / blob_files_to_drop in with_merge (found %d)" % seen)
+    # the diff is merged whenever it is present
+    mi = hir_sites(h["body"], lambda n: n.get("k") == "mcall" and n.get("m") == "merge_into")
+    for s in mi:
+        g = [resolve(t) for t in s.guard_texts()]
+        ok = any(("has_diff" in t or "diff.is_some()" in t) and not t.startswith("!") for t in g) or not g
+        r.check(ok, "%s|diff merged whenever present" % name, "merge_into is guarded by %s" % g, "", " & ".join(g))
+    lets = {n["pat"]["n"]: hir_expr_str(n["init"]) for n in hir_walk(h["body"]) if n.get("k") == "let" and n["pat"].get("k") == "bind" and "init" in n}
+    if "has_diff" in lets:
+        r.check(lets.get("has_diff") == "diff.is_some()", "%s|has_diff := diff.is_some()" % name, "has_diff is %s" % lets.get("has_diff"), "")
 
 
 def c08f(prog, R):
